@@ -217,6 +217,9 @@ class C01(ResolveSpec):
                 # publisher-based first links from several sources (local and imported wildcard audits, trusted entries)
                 gen.boost_grants(rng, c)
                 gen.boost_grants(rng, c)
+            if i % 5 == 2:
+                # what a dev-dependency must meet is decided by one `dependency-criteria` entry of a workspace member
+                gen.boost_dev_dep_policy(rng, c)
             cases.append(c)
         return cases
 
@@ -396,6 +399,8 @@ class C12(ResolveSpec):
             gen.boost_exemptions(rng, c)
             if i % 3 == 1:
                 gen.boost_dense_success(rng, c)
+            if i % 4 == 2:
+                gen.boost_grant_vs_exemption(rng, c)
             cases.append(c)
         return cases
 
